@@ -422,7 +422,7 @@ int main(int argc, char **argv) {
         int stride = argc > 6 ? atoi(argv[6]) : 1;
         mode_enum(n, sym, kinds, modes, stride, (int)(seed % (uint64_t)std::max(1, stride)));
     }
-    else if (mode == "random") mode_random(seed, vr::env_int("VERIF_REPS", th ? 150 : 14), vr::env_int("VERIF_NMAX", th ? 300 : 100));
+    else if (mode == "random") mode_random(seed, vr::env_int("VERIF_REPS", th ? 60 : 14), vr::env_int("VERIF_NMAX", th ? 300 : 100));
     else if (mode == "ns") mode_ns(seed, vr::env_int("VERIF_REPS", th ? 400 : 60), vr::env_int("VERIF_NMAX", th ? 240 : 90));
     else if (mode == "poison") mode_poison(seed, vr::env_int("VERIF_REPS", th ? 200 : 40));
     vr::obj o; o.str("e", "End"); vr::emit(o.done());
